@@ -762,7 +762,7 @@ class DBUDSServer(UDSServer):
                     parameters.append(
                         value
                         if isinstance(value, int | float | str)
-                        else json.dumps(value, separators=(",", ":"))
+                        else json.dumps(value, separators=(",", ":"), sort_keys=True)
                     )
 
         query += "r.request_pdu = ? "
